@@ -283,6 +283,7 @@ def run(rep, for_c07=False):
     if not for_c07:
         from . import validate
         validate.stage(rep)              # what `valid` means: spec/Validate.tla against the real validators
+        watchdog_pacing(rep)
     wd = tlc.workdir("MC_Psm")
     try:
         jobs = []
@@ -323,6 +324,11 @@ def run(rep, for_c07=False):
 def replay(rep, path):
     r = json.load(open(path))["replay"]
     nodemod.ensure_installed(0)
+    if r.get("kind") == "watchdog-pacing":
+        watchdog_pacing(rep)
+        rep.states, rep.transitions = 1, 1
+        rep.sample(r)
+        return rep.finish()
     if r.get("kind") == "validate":
         from . import validate
         validate.replay_one(rep, r)
@@ -355,3 +361,45 @@ def replay(rep, path):
     rep.states, rep.transitions = 1, 1
     rep.sample(r)
     return rep.finish()
+
+
+
+def watchdog_pacing(rep):
+    """An idle open connection: one watchdog request per configured period, not more (the model's IdleReached abstracts the
+    counting of selector rounds; this stage drives the real counter for several periods, the peer answering every DWR)."""
+    W, rounds = 6, 25
+    most = rounds // (W - 2) + 1        # selector rounds that carry the DWR / DWA themselves count towards the period too
+    for role in ("client", "server"):
+        ad = PsmAdapter(role, watchdog=W)
+        h = ad.fresh()
+        n = h.node
+        try:
+            ad.apply(h, "Start", [False], None)
+            if role == "client":
+                ad.apply(h, "Tick", [], None)
+                ad.apply(h, "Tick", [], None)
+                ad.apply(h, "Inject", [{"k": "CEA", "valid": True, "id": 1}], None)
+            else:
+                ad.apply(h, "Inject", [{"k": "CER", "valid": True, "id": 1}], None)
+            ad.apply(h, "Tick", [], None)
+            ad.project(h)
+            if n.state() != "Open":
+                raise tlc.TlcError(f"watchdog pacing: the {role} node did not open")
+            ndwr = 0
+            for r in range(rounds):
+                n.idle_rounds(1)
+                n.tick()
+                for m in n.take_sent():
+                    if n.classify(m) == "DWR":
+                        ndwr += 1
+                        dwa = n.make("DWA", True, 1)
+                        dwa.header.hop_by_hop, dwa.header.end_to_end = m.header.hop_by_hop, m.header.end_to_end
+                        n.inject(dwa)
+                        n.tick()
+            rep.case(("watchdog-pacing", role))
+            if ndwr < 1 or ndwr > most:
+                rep.violation(f"{role}: an idle open connection with WATCHDOG_TIMEOUT {W} emitted {ndwr} watchdog requests in {rounds} idle selector rounds "
+                              f"(one per period expected: 1..{most})", {"kind": "watchdog-pacing", "role": role})
+            rep.notes.setdefault("watchdog_pacing", {})[role] = {"rounds": rounds, "timeout": W, "dwr": ndwr}
+        finally:
+            ad.dispose(h)
